@@ -1,5 +1,7 @@
 package redisemu
 
+import "math"
+
 func setAddCommon(ctx *cmdContext, args map[string]any, options bitflags) (output respValue, err error) {
 	keyName := args["key"].(string)
 	members := args["member"].([]any)
@@ -195,6 +197,11 @@ func fnSRandMember(ctx *cmdContext, args map[string]any) (output respValue, err 
 	var countPtr *int
 	count := int(count64)
 	if countSpecified {
+		if count64 == math.MinInt64 {
+			// -count is not representable
+			output.data = respErrorString("ERR value is out of range")
+			return
+		}
 		countPtr = &count
 	}
 
